@@ -88,11 +88,22 @@ impl Property for C11 {
             rng.range(0, if tier == Tier::Thorough { 20 } else { 10 })
         };
         let mut vals: Vec<Val> = Vec::new();
+        // positions holding a raw token instead of a spelled value (never redelivered)
+        let mut odd: Vec<usize> = Vec::new();
         for i in 0..n {
-            if i > 0 && rng.chance(1, 12) {
+            if rng.chance(1, 25) {
+                // a token that is JSON grammar but that jawk cannot hold (or tokenises in its
+                // own way): whatever it does with it, it must do it record-locally
+                let t = *rng.pick(&["1e999", "-2e400", "1e-999", "123456789012345678901234567890", "[1e999, 2]", "{\"a\": 1e999}", "0.1e+400"]);
+                case.pieces.push(Piece::rec(t.as_bytes().to_vec(), i as u32));
+                vals.push(Val::Null);
+                odd.push(i);
+                continue;
+            }
+            if i > 0 && rng.chance(1, 12) && !odd.contains(&(vals.len() - 1)) {
                 // an earlier record with the members of its objects in another order: a
                 // different value (it prints differently) that compares equal member-wise
-                let j = if rng.chance(1, 2) { vals.len() - 1 } else { rng.below(vals.len()) };
+                let j = vals.len() - 1;
                 let v = permute_members(&vals[j], rng);
                 case.pieces.push(Piece::rec(spell(&v, rng, 1), i as u32));
                 let last = case.pieces.len() - 1;
@@ -100,7 +111,7 @@ impl Property for C11 {
                 vals.push(v);
                 continue;
             }
-            if i > 0 && rng.chance(1, 4) {
+            if i > 0 && rng.chance(1, 4) && odd.is_empty() {
                 // redelivery of an earlier record in a fresh spelling
                 let j = rng.below(vals.len());
                 let v = vals[j].clone();
